@@ -31,87 +31,114 @@ def check(repo: Repo) -> Result:
     r1 = res.rule("C17-R1", "dtype selection at the four conversion sites: float/complex of the operand's own item size, never integer; complex kept; 1-byte widened or refused", floor=12)
     r2 = res.rule("C17-R2", "overflow warning for large integers on both conversion routes; thresholds are the first integers a float of that size cannot hold", floor=3)
 
+    from engine.sem import canon_block, canon_expr, cnorm
+
+    def casts(fn_, region=None):
+        """calls that fix the dtype of converted data: np.asarray/np.array(x, dtype=D) and x.astype(D)"""
+        out = []
+        for n in ast.walk(region if region is not None else fn_.node):
+            if isinstance(n, ast.Call):
+                f = norm(n.func)
+                d = None
+                if f in ("np.asarray", "np.array", "np.asanyarray"):
+                    d = next((k.value for k in n.keywords if k.arg == "dtype"), n.args[1] if len(n.args) > 1 else None)
+                elif isinstance(n.func, ast.Attribute) and n.func.attr == "astype" and n.args:
+                    d = n.args[0]
+                if d is not None:
+                    out.append((n, d))
+        return out
+
     # ---- site A: in_units -------------------------------------------------------
     fn = arr.func("unyt_array.in_units")
     res.fn(fn)
-    ex = Expander(fn)
-    nd = [n for n in walk_no_nested(fn.node) if isinstance(n, ast.Assign) and norm(n.targets[0]) == "new_dtype"]
-    if len(nd) != 1:
-        raise AnalysisError(f"{fn.where()}: new_dtype definition not found in in_units")
-    txt = ex.expand(nd[0].value)
+    data_forms = {"self.ndview", "self.d", "self.view(np.ndarray)"}
+    prods = [x for x in ast.walk(fn.node) if isinstance(x, ast.BinOp) and isinstance(x.op, ast.Mult) and ({cnorm(x.left), cnorm(x.right)} & data_forms or any(cnorm(y) in data_forms for y in ast.walk(x.left)))]
+    if not prods:
+        raise AnalysisError(f"{fn.where()}: the product data * factor was not found in in_units")
+    cs = [(c, d) for c, d in casts(fn) if c.args and any(c.args[0] is p_ for p_ in prods)]
     want = "np.dtype(('c' if self.dtype.kind == 'c' else 'f') + str(max(2, self.dtype.itemsize)))"
-    res.check(txt == want, "in_units:dtype", fn.where(nd[0]), "in_units must convert into float (complex for complex input) of the array's own item size, at least 2 bytes", want, txt, rid=r1)
-    ret = [n for n in walk_no_nested(fn.node) if isinstance(n, ast.Assign) and norm(n.targets[0]) == "ret"]
-    ok = len(ret) == 1 and norm(ret[0].value) in ("np.asarray(self.ndview * conversion_factor, dtype=new_dtype)", "np.asarray(conversion_factor * self.ndview, dtype=new_dtype)")
-    res.check(ok, "in_units:cast", fn.where(ret[0]) if ret else fn.where(), "the converted data are produced by multiplying with the (float) factor and casting to the selected dtype", found=[norm(r.value) for r in ret], rid=r1)
-    _warning_site(res, fn, r2, "in_units", "self.d", "dsize")
+    if len(cs) != 1:
+        res.bad("in_units:dtype", fn.where(prods[0]), "in_units multiplies the data by the factor without casting the product to the selected float / complex dtype (the result takes whatever type NumPy's promotion gives, e.g. float64 for float32 data, or the cast happens before the multiplication)", f"np.asarray(data * factor, dtype={want})", cnorm(prods[0]), rid=r1)
+        res.bad("in_units:cast", fn.where(prods[0]), "the converted data are produced by multiplying the bare data with the (float) factor and casting the product to the selected dtype", rid=r1)
+    else:
+        call, d = cs[0]
+        txt = canon_expr(d, fn)
+        res.check(txt == want, "in_units:dtype", fn.where(call), "in_units must convert into float (complex for complex input) of the array's own item size, at least 2 bytes", want, txt, rid=r1)
+        arg0 = call.args[0]
+        facs = sorted([cnorm(arg0.left), cnorm(arg0.right)])
+        ok = bool(set(facs) & data_forms) and any(f not in data_forms and "conv" in f for f in facs)
+        res.check(ok, "in_units:cast", fn.where(call), "the converted data are produced by multiplying the bare data with the (float) factor and casting the product to the selected dtype", "np.asarray(self.ndview * factor, dtype=...)", cnorm(call), rid=r1)
+    _warning_site(res, fn, r2, "in_units", "self")
 
     # ---- site B: convert_to_units ----------------------------------------------------
     fn = arr.func("unyt_array.convert_to_units")
     res.fn(fn)
-    blk = [n for n in walk_no_nested(fn.node) if isinstance(n, ast.If) and norm(n.test) in ("self.dtype.kind in ('u', 'i')", "self.dtype.kind in ('i', 'u')")]
+    blk = [n for n in walk_no_nested(fn.node) if isinstance(n, ast.If) and cnorm(n.test) in ("self.dtype.kind in ('u', 'i')", "self.dtype.kind in ('i', 'u')")]
     if len(blk) != 1:
         raise AnalysisError(f"{fn.where()}: integer-dtype block not found in convert_to_units")
     b = blk[0]
     res.ok("convert_to_units:only-integers", r1)  # float and complex data are not retyped at all
-    stm = {norm(s.targets[0]): norm(s.value) for s in b.body if isinstance(s, ast.Assign)}
-    ok = stm.get("dsize") == "values.dtype.itemsize" and stm.get("new_dtype") == "'f' + str(dsize)"
-    res.check(ok, "convert_to_units:dtype", fn.where(b), "in-place conversion must retype to float of the same item size", "'f' + str(values.dtype.itemsize)", stm.get("new_dtype"), rid=r1)
-    small = [s for s in b.body if isinstance(s, ast.If) and norm(s.test) == "dsize == 1"]
-    res.check(len(small) == 1 and is_raise_of(small[0].body[0], "ValueError"), "convert_to_units:one-byte", fn.where(b), "1-byte integers cannot be converted in place and must be refused", rid=r1)
-    seq = [norm(s) for s in b.body]
-    need = ["float_values = values.astype(new_dtype)", "values.dtype = new_dtype", "self.dtype = new_dtype", "np.copyto(values, float_values)"]
-    idx = [seq.index(x) if x in seq else -1 for x in need]
-    res.check(all(i >= 0 for i in idx) and idx == sorted(idx), "convert_to_units:retype-sequence", fn.where(b), "the buffer is converted value-preservingly: float copy, relabel dtype, copy back", need, seq, rid=r1)
+    # `values` is the bare view of self (reaching definition), so the block is read with values := self.d
+    vdef = [n for n in walk_no_nested(fn.node) if isinstance(n, ast.Assign) and isinstance(n.targets[0], ast.Name) and cnorm(n.value) in ("self.d", "self.ndview", "self.view(np.ndarray)")]
+    if len(vdef) != 1:
+        raise AnalysisError(f"{fn.where()}: the bare view of self was not found in convert_to_units")
+    V = vdef[0].targets[0].id
+    keep = set(fn.params) | {"self", V, "np", "warnings", "LARGE_INPUT", "new_units", "conv_factor", "offset"}
+    flat = [s_ for s_ in b.body if not isinstance(s_, ast.If)]
+    seq = canon_block(flat, keep=keep)
+    need = [f"_L0 = {V}.astype('f' + str({V}.dtype.itemsize))", f"{V}.dtype = 'f' + str({V}.dtype.itemsize)", f"self.dtype = 'f' + str({V}.dtype.itemsize)", f"np.copyto({V}, _L0)"]
+    # after `values.dtype = ...` the item size is unchanged, so reading it again for self.dtype is the same value;
+    # accept the form in which the dtype string is kept in a local across the write as well
+    alt = [f"_L0 = {V}.astype('f' + str({V}.dtype.itemsize))", f"_L1 = 'f' + str({V}.dtype.itemsize)", f"{V}.dtype = _L1", "self.dtype = _L1", f"np.copyto({V}, _L0)"]
+    res.check(seq in (need, alt), "convert_to_units:retype-sequence", fn.where(b), "the buffer is converted value-preservingly and to float of the same item size: float copy first, relabel the view and the array, copy back", alt, seq, rid=r1)
+    res.check(any("'f' + str(" in x and ".dtype.itemsize)" in x for x in seq), "convert_to_units:dtype", fn.where(b), "in-place conversion must retype to float of the same item size", rid=r1)
+    small = [s_ for s_ in b.body if isinstance(s_, ast.If) and canon_expr(s_.test, fn) in (f"{V}.dtype.itemsize == 1", "self.dtype.itemsize == 1") and s_.body and is_raise_of(s_.body[0], "ValueError")]
+    res.check(len(small) == 1, "convert_to_units:one-byte", fn.where(b), "1-byte integers cannot be converted in place and must be refused", rid=r1)
     # multiplication happens after the retyping
-    body_top = fn.body
-    vm = [n for n in walk_no_nested(fn.node) if isinstance(n, ast.AugAssign) and norm(n.target) == "values" and isinstance(n.op, ast.Mult)]
-    res.check(len(vm) == 1 and vm[0].lineno > b.end_lineno and norm(vm[0].value) == "conv_factor", "convert_to_units:multiply-after", fn.where(), "the factor is applied after the buffer has become floating point", rid=r1)
-    _warning_site(res, fn, r2, "convert_to_units", "values", "dsize")
+    vm = [n for n in walk_no_nested(fn.node) if isinstance(n, ast.AugAssign) and norm(n.target) == V and isinstance(n.op, ast.Mult)]
+    res.check(len(vm) == 1 and vm[0].lineno > b.end_lineno and isinstance(vm[0].value, ast.Name), "convert_to_units:multiply-after", fn.where(), "the factor is applied after the buffer has become floating point", rid=r1)
+    _warning_site(res, fn, r2, "convert_to_units", V)
 
     # ---- site C: binary ufunc second operand --------------------------------------------
     a = UfuncAnchors(repo)
     fn = a.fn
     res.fn(fn)
-    nd = [n for n in a.differ_if.body if isinstance(n, ast.Assign) and norm(n.targets[0]) == "new_dtype"]
-    if len(nd) != 1:
-        raise AnalysisError(f"{fn.where(a.differ_if)}: new_dtype for the second operand not found")
-    # expand block-local single assignments (new_dtypekind = ...)
-    import copy
-
-    local = {}
-    for st in a.differ_if.body:
-        if isinstance(st, ast.Assign) and isinstance(st.targets[0], ast.Name) and st.lineno < nd[0].lineno:
-            local.setdefault(st.targets[0].id, []).append(st.value)
-    single = {k: v[0] for k, v in local.items() if len(v) == 1 and k != "new_dtype"}
-
-    class _T(ast.NodeTransformer):
-        def visit_Name(self, n):
-            if isinstance(n.ctx, ast.Load) and n.id in single:
-                return copy.deepcopy(single[n.id])
-            return n
-
-    txt = norm(_T().visit(copy.deepcopy(nd[0].value)))
+    region = ast.Module(body=a.differ_if.body, type_ignores=[])
+    cs = [(c, d) for c, d in casts(fn, region) if c.args and cnorm(c.args[0]) == "inp1"]
+    resc = [n for n in a.differ_if.body if isinstance(n, ast.Assign) and norm(n.targets[0]) == "inp1"]
+    if len(resc) != 1:
+        raise AnalysisError(f"{fn.where(a.differ_if)}: the rescaling of the second operand was not found")
     good = (
         "np.dtype(('c' if inp1.dtype.kind == 'c' else 'f') + str(inp1.dtype.itemsize))",
         "np.dtype(('c' if inp1.dtype.kind == 'c' else 'f') + str(max(2, inp1.dtype.itemsize)))",
     )
-    res.check(txt in good, "ufunc-operand:dtype", fn.where(nd[0]), "the rescaled second operand must be float of its own item size, and complex when it is complex (a plain 'f' discards the imaginary part)", good[0], txt, rid=r1)
-    resc = [n for n in a.differ_if.body if isinstance(n, ast.Assign) and norm(n.targets[0]) == "inp1"]
-    ok = len(resc) == 1 and "np.asarray(inp1, dtype=new_dtype)" in norm(resc[0].value)
-    res.check(ok, "ufunc-operand:cast-before-multiply", fn.where(resc[0]) if resc else fn.where(), "the operand is cast to the float type before it is multiplied by the factor", rid=r1)
+    if len(cs) != 1:
+        res.bad("ufunc-operand:dtype", fn.where(resc[0]), "the second operand is rescaled without first being cast to a float / complex type of its own item size (integer data would be multiplied and truncated in integer arithmetic or promoted to an unrelated width)", good[0], cnorm(resc[0].value), rid=r1)
+        res.bad("ufunc-operand:cast-before-multiply", fn.where(resc[0]), "the operand is cast to the float type before it is multiplied by the factor", rid=r1)
+    else:
+        call, d = cs[0]
+        # block-local pure definitions (new_dtypekind, new_dtype, hoisted inp1.dtype) are expanded
+        from engine.sem import is_pure
+
+        env = {}
+        for st in a.differ_if.body:
+            if isinstance(st, ast.Assign) and len(st.targets) == 1 and isinstance(st.targets[0], ast.Name) and st.lineno < call.lineno:
+                if is_pure(st.value) and st.targets[0].id not in ("inp1", "u0", "u1"):
+                    env[st.targets[0].id] = st.value
+        txt = canon_expr(d, None, extra_env=env)
+        res.check(txt in good, "ufunc-operand:dtype", fn.where(call), "the rescaled second operand must be float of its own item size, and complex when it is complex (a plain 'f' discards the imaginary part)", good[0], txt, rid=r1)
+        ok = isinstance(resc[0].value, ast.BinOp) and isinstance(resc[0].value.op, ast.Mult) and any(x is call for x in ast.walk(resc[0].value))
+        res.check(ok, "ufunc-operand:cast-before-multiply", fn.where(resc[0]), "the operand is cast to the float type before it is multiplied by the factor", rid=r1)
 
     # ---- site D: integer out= buffers -----------------------------------------------------------
-    ob = [n for n in ast.walk(ast.Module(body=a.pre, type_ignores=[])) if isinstance(n, ast.If) and norm(n.test) in ("out.dtype.kind in ('u', 'i')", "out.dtype.kind in ('i', 'u')")]
+    ob = [n for n in ast.walk(ast.Module(body=a.pre, type_ignores=[])) if isinstance(n, ast.If) and cnorm(n.test) in ("out.dtype.kind in ('u', 'i')", "out.dtype.kind in ('i', 'u')")]
     if len(ob) != 1:
         raise AnalysisError(f"{fn.where()}: integer out= promotion not found")
-    seq = [norm(s) for s in ob[0].body]
-    need = ["new_dtype = 'f' + str(out.dtype.itemsize)", "float_values = out.astype(new_dtype)", "out.dtype = new_dtype", "np.copyto(out, float_values)"]
-    idx = [seq.index(x) if x in seq else -1 for x in need]
-    res.check(all(i >= 0 for i in idx) and idx == sorted(idx), "out-promotion", fn.where(ob[0]), "integer out= buffers are promoted value-preservingly to float of the same item size before NumPy writes into them", need, seq, rid=r1)
-    ov = [n for n in a.pre[0:0]]
+    seq = canon_block(ob[0].body, keep=set(fn.params) | {"out", "np", "kwargs", "ufunc"})
+    need = ["_L0 = out.astype('f' + str(out.dtype.itemsize))", "out.dtype = 'f' + str(out.dtype.itemsize)", "np.copyto(out, _L0)"]
+    res.check(seq == need, "out-promotion", fn.where(ob[0]), "integer out= buffers are promoted value-preservingly to float of the same item size before NumPy writes into them: float copy taken first, buffer relabelled, values copied back (canonical form: locals naming pure expressions substituted, others renamed)", need, seq, rid=r1)
     # the view handed to NumPy is taken after the promotion
-    assigns = [n for n in ast.walk(ast.Module(body=a.pre, type_ignores=[])) if isinstance(n, ast.Assign) and norm(n.targets[0]) == "out_func" and norm(n.value) == "out.view(np.ndarray)"]
+    assigns = [n for n in ast.walk(ast.Module(body=a.pre, type_ignores=[])) if isinstance(n, ast.Assign) and cnorm(n.value) == "out.view(np.ndarray)"]
     res.check(len(assigns) == 1 and assigns[0].lineno > ob[0].end_lineno, "out-promotion:view-after", fn.where(), "the ndarray view of out is taken after the promotion", rid=r1)
 
     # no site builds an integer dtype string
@@ -135,17 +162,21 @@ def check(repo: Repo) -> Result:
     return res
 
 
-def _warning_site(res, fn, rid, name, data, size):
+def _warning_site(res, fn, rid, name, data_root):
+    """a RuntimeWarning is issued under: integer dtype, and some |value| exceeds LARGE_INPUT[item size]"""
+    from engine.sem import canon_expr, cnorm
+
     w = [c for c in walk_no_nested(fn.node) if isinstance(c, ast.Call) and norm(c.func) == "warnings.warn"]
     ok = False
     if w:
-        # find the guarding test
         guards = [n for n in walk_no_nested(fn.node) if isinstance(n, ast.If) and any(x is w[0] for x in ast.walk(n))]
-        tests = [norm(g.test) for g in guards]
-        ok = any(t == f"large and np.any(np.abs({data}) > large)" for t in tests) and any("self.dtype.kind in" in t for t in tests)
-        ok = ok and any(norm(s) == f"large = LARGE_INPUT.get({size}, 0)" for s in walk_no_nested(fn.node) if isinstance(s, ast.Assign))
-        ok = ok and "RuntimeWarning" in norm(w[0])
-    res.check(ok, f"{name}:warning", fn.where(w[0]) if w else fn.where(), f"{name} must warn (RuntimeWarning) when integer data exceed LARGE_INPUT for their item size", rid=rid)
+        tests = [canon_expr(g.test, fn) for g in guards]
+        data_forms = {f"{data_root}.d", f"{data_root}.ndview", data_root, "self.d", "self.ndview"}
+        size_forms = ("self.dtype.itemsize", f"{data_root}.dtype.itemsize", "max(2, self.dtype.itemsize)")
+        mag = [f"LARGE_INPUT.get({sz}, 0) and np.any(np.abs({d}) > LARGE_INPUT.get({sz}, 0))" for d in data_forms for sz in size_forms]
+        ok = any(t in mag for t in tests) and any("self.dtype.kind in" in t for t in tests)
+        ok = ok and any(isinstance(a_, ast.Name) and a_.id == "RuntimeWarning" for a_ in ast.walk(w[0]))
+    res.check(ok, f"{name}:warning", fn.where(w[0]) if w else fn.where(), f"{name} must warn (RuntimeWarning) when the magnitude of integer data exceeds LARGE_INPUT for their item size", rid=rid)
 
 
 MUTANTS = [
